@@ -621,14 +621,17 @@ _APB = "patch = header + T (platform concrete) + one command + EOF_; ids, offset
 H("C03", "patch", "c03_apply_delete_data", bounds=_APB + "D at block 2, 2 blocks, in a 640-byte dat3 of category 0a / ex1 / chunk 02 / win32", **_AP)
 H("C03", "patch", "c03_apply_expand_data", bounds=_APB + "E at block 1, 3 blocks, ps4, data file does not exist yet", **_AP)
 H("C03", "patch", "c03_apply_delete_data_across_end", bounds=_APB + "D at block 2, 4 blocks, ps3, file of 384 bytes (range starts inside, ends behind the end)", **_AP)
-# NOT registered (harness code kept in harness/patch.rs; measured 2026-09-29): c03_apply_add_data*, c03_apply_add_file_*,
-# c03_apply_header_update_*, c03_apply_second_target_info_wins were each killed
-# at the 10 GB cap when run six at a time; c03_apply_add_data alone: symbolic execution 455 s, then the SAT back end ran out of
-# memory beyond 32 GB; c04_create_* lose the constants of the path String
-# (borrowed through three enum levels by the derived BinWrite) and end without a verdict.  DESIGN.md section 4, C03.
+# NOT registered (harness code kept in harness/patch.rs; measured 2026-09-29): c03_apply_add_data* (alone, no cap: symbolic execution
+# 455 s, then the SAT back end ran out of memory beyond 32 GB), c03_apply_header_update_* (1024-byte payload: not attempted alone),
+# c03_apply_add_file_new_at_16 (not run alone); c04_create_* lose the constants of the path String (borrowed through three enum
+# levels by the derived BinWrite) and end without a verdict.  DESIGN.md section 4, C03.
 _STR = ["common_file_operations::read_string / write_string / get_string_len -> byte-level models for ASCII text without interior NUL (the real ones are decided "
         "by c17_read_string_ascii / c17_write_string_plain; they unwrap std Results with the multi-variant niche layout: CString::new, String::from_utf8)"]
 _APS = dict(_AP); _APS["stubs"] = _AP["stubs"] + _STR
+_APSF = dict(_APS); _APSF["unwind"] = 170
+for n, d in (("overwrite_at_3", "the file exists (12 bytes): 5 bytes written at offset 3, every other byte kept"), ("replace_at_0", "the file exists: offset 0 truncates it first, the result is the 5 new bytes")):
+    H("C03", "patch", "c03_apply_add_file_" + n, bounds=_APB + "F/A on ab/c.de with one raw 5-byte block between the command and its CRC; " + d + "; a neighbouring file keeps every byte", **_APSF)
+H("C03", "patch", "c03_apply_second_target_info_wins", bounds="T(win32), T(ps4), E: the data file of the SECOND platform is created, none for the first (all bytes concrete: decided by constant propagation)", **_AP)
 H("C03", "patch", "c03_apply_make_dir_tree", bounds=_APB + "F/M on ab/c.de: the parent directory is created, both existing files keep every byte", **_APS)
 H("C03", "patch", "c03_apply_delete_file", bounds=_APB + "F/D on ab/c.de: exactly the named file disappears, its neighbour keeps every byte; offset / size / expansion fields symbolic", **_APS)
 # C15: the file names patching writes (closures inside ZiPatch::apply) agree with Repository::dat_filename at these instances
